@@ -453,15 +453,25 @@ def one_case(seed, idx, out, model_ok, ops, pend):
         use_text = (not native) and rng.random() < 0.5
         rows, starts = [], []
         clean_grids, bad_grids = [], []
-        for t, d in zip(tabs, defs):
+        # stream layout: tables separated by a blank row or abutting (the next `**` marker ends the block), and the
+        # stream ending with a blank row or right after the last table's last row (all four combinations)
+        abut = rng.random() < 0.5
+        trailing_blank = rng.random() < 0.5
+        for k, (t, d) in enumerate(zip(tabs, defs)):
             starts.append(len(rows))
             g = build_grid(t, d)
             bad_grids.append(g)
             clean_grids.append(build_grid(t))
             rows.extend(g)
-            rows.append([])
+            last = k == len(tabs) - 1
+            if (last and trailing_blank) or (not last and not (abut and rng.random() < 0.8)):
+                rows.append([])
+        text = None
         if use_text:
-            rows = [l.rstrip("\n").split(";") for l in to_text(rows).splitlines(True)]     # as csv.py splits them
+            text = to_text(rows)
+            if not trailing_blank and rng.random() < 0.5:
+                text = text[:-1]                       # the file ends without a newline after the last cell
+            rows = [l.rstrip("\n").split(";") for l in text.splitlines(True)]     # as csv.py splits them
         case = {"seed": seed, "index": idx, "fixer": fk, "tracker": tracker, "api": "read_csv" if use_text else "parse_blocks",
                 "rows": grid_to_json(rows)}
         n_def = sum(len(effective_illegal(t, d)) + len(d["dups"]) + len(d["short"]) for t, d in zip(tabs, defs))
@@ -485,7 +495,9 @@ def one_case(seed, idx, out, model_ok, ops, pend):
             for (i, j) in effective_illegal(t, d):
                 out.count("illegal:" + t["kinds"][j])
 
-        impl = run_impl(rows=None if use_text else rows, text=to_text(rows) if use_text else None,
+        out.count("layout:" + ("abutting" if abut and n_tab > 1 else "separated") + "+" +
+                  ("trailing blank" if trailing_blank else "ends at last table row"))
+        impl = run_impl(rows=None if use_text else rows, text=text if use_text else None,
                         fixer_kind=fk, tracker=tracker)
         mk = MODEL_KIND[fk]
         strict = mk == "strict"
@@ -577,7 +589,7 @@ def one_case(seed, idx, out, model_ok, ops, pend):
         # ---- model
         if model_ok:
             if use_text:
-                ops.append({"op": "read_csv_blocks", "text": to_text(rows), "sep": ";", "to": "pdtable", "filter": None,
+                ops.append({"op": "read_csv_blocks", "text": text, "sep": ";", "to": "pdtable", "filter": None,
                             "tracker": tracker, "fixer": rc.FIXERS[mk], "ext": rc.ext_tables(rows)})
             else:
                 ops.append({"op": "parse_blocks_fx", "rows": grid_to_json(rows), "to": "pdtable", "filter": None,
